@@ -599,6 +599,11 @@ fn single_cases(tier: Tier) -> Vec<A> {
                 out.push(e.clone().attr("", "k", "v"));
                 out.push(e.clone().attr("", "checked", "checked"));
                 out.push(e.clone().attr("", "Checked", "CHECKED"));
+                if void {
+                    // a void element that nevertheless has content: still no end tag
+                    out.push(e.clone().child(A::text("x")));
+                    out.push(e.clone().child(A::el("", "span")));
+                }
                 if !void {
                     out.push(e.clone().child(A::el("", "p")));
                     out.push(e.clone().child(A::text("x")).child(A::el(ns, "span")).child(A::text("y")));
